@@ -12,7 +12,9 @@ line protocol (one scenario per line):
   A: (message, handler) pairs the filter rejects      R: re-entrant writes (sink of h logs j while writing i)
   X: messages carrying an exception                   S: messages whose str(record) raises
   N: messages logged without event loop               L: level numbers (default 20)
-  group = ops joined by '+';  op = l<i> | c | r<hid>.<k>
+  group = ops joined by '+';  op = l<i> | c | r<hid>.<k> | R<k> (remove() of all handlers)
+  H may carry a 9th field: the stream object has a `stop` method (default 1)
+  E modes: ok | absent | <Err> | <Err>@<h|r|t|f> (stderr raises when that chunk of a report is written)
 
 answer: one observation per group joined by '|':
   <res+res..>:<sorted events joined by ','>:reg=<ids>:min=<level|inf>:<hid>=<sink msgs joined by '.'>;...
@@ -54,6 +56,12 @@ def parseCfg (s : String) : Option Cfg :=
       some { id := id, level := lv, catch_ := ca, enqueue := en, kind := kd, hasFilter := fi, dynamic := dy,
              serialize := se }
     | _, _, _, _, _, _, _, _ => none
+  | [id, lv, ca, en, kd, fi, dy, se, sp] =>
+    match id.toNat?, lv.toNat?, parseB ca, parseB en, parseKind kd, parseB fi, parseB dy, parseB se, parseB sp with
+    | some id, some lv, some ca, some en, some kd, some fi, some dy, some se, some sp =>
+      some { id := id, level := lv, catch_ := ca, enqueue := en, kind := kd, hasFilter := fi, dynamic := dy,
+             serialize := se, stoppable := sp }
+    | _, _, _, _, _, _, _, _, _ => none
   | _ => none
 
 def parseFault (s : String) : Option (Nat × Nat × Stage × Err) :=
@@ -77,8 +85,21 @@ def parseReenter (s : String) : Option (Nat × Nat × InnerAct) :=
     | _, _, _ => none
   | _ => none
 
+def parseChunk : String → Option Chunk
+  | "h" => some .header | "r" => some .record | "t" => some .traceback | "f" => some .footer | _ => none
+
+def showChunk : Chunk → String
+  | .header => "h" | .record => "r" | .traceback => "t" | .footer => "f"
+
+/-- `ok | absent | <Err> | <Err>@<h|r|t|f>` (stderr breaks when that chunk of a report is written) -/
 def parseMode (e : String) : Option StderrMode :=
-  if e = "ok" then some .ok else if e = "absent" then some .absent else (parseErr e).map .fails
+  if e = "ok" then some .ok else if e = "absent" then some .absent else
+  match e.splitOn "@" with
+  | [k] => (parseErr k).map .fails
+  | [k, c] => match parseErr k, parseChunk c with
+    | some k, some c => some (.failsAt c k)
+    | _, _ => none
+  | _ => none
 
 /-- `E=<default>/<i>:<mode>/...`: what `sys.stderr` is while message / operation `i` is processed -/
 def parseModes (e : String) : Option (StderrMode × List (Nat × StderrMode)) :=
@@ -97,6 +118,7 @@ def parseModes (e : String) : Option (StderrMode × List (Nat × StderrMode)) :=
 def parseOp (s : String) : Option Op :=
   if s = "c" then some .complete
   else if s.startsWith "l" then (s.drop 1).toString.toNat?.map Op.log
+  else if s.startsWith "R" then (s.drop 1).toString.toNat?.map Op.removeAll
   else if s.startsWith "r" then
     match (s.drop 1).toString.splitOn "." with
     | [h, k] => match h.toNat?, k.toNat? with
@@ -118,6 +140,12 @@ def showEvent : Event → String
       | none => "n"
     s!"R{hid}.{m}.{kind}.{if ph then 1 else 0}.{showSrc src}"
   | .loopError hid msg kind => s!"L{hid}.{msg}.{kind}"
+  | .partialReport hid msg ph chunks src =>
+    -- the record is identifiable only if its line was written
+    let m := if chunks.contains .record then (if ph then "p" else match msg with
+      | some m => toString m
+      | none => "n") else "-"
+    s!"P{hid}.{m}.{"".intercalate (chunks.map showChunk)}.{showSrc src}"
 
 def showState (w : World) : String :=
   let regIds := ".".intercalate (w.reg.map (fun p => toString p.1.id))
